@@ -1,6 +1,7 @@
 package rules
 
 import (
+	"regexp"
 	"fmt"
 	"sort"
 	"strings"
@@ -88,13 +89,13 @@ func runC22(c *eng.Ctx) {
 			if eng.IsNilConst(res[0]) {
 				exhausted := false
 				for _, a := range g {
-					if !a.Pos && strings.Contains(a.Expr, " < len(p0.flushers))") {
+					if !a.Pos && regexp.MustCompile(` < len\(p0\.\w+\)\)$`).MatchString(a.Expr) {
 						exhausted = true
 					}
 				}
 				c.Check("R1", "flush-all-before-success", r.Pos(), exhausted, "success is reported only after every flusher was flushed", atomsShort(g))
 			} else {
-				c.Check("R1", "flush-first-error", r.Pos(), strings.HasPrefix(eng.Render(res[0]), "invoke:Flush(p0.flushers["), "the first flusher error is returned as is", eng.Render(res[0]))
+				c.Check("R1", "flush-first-error", r.Pos(), regexp.MustCompile(`^invoke:Flush\(p0\.\w+\[`).MatchString(eng.Render(res[0])), "the first flusher error is returned as is", eng.Render(res[0]))
 			}
 		}
 	}
